@@ -27,6 +27,12 @@ structure ElifsFacts (es : Elifs) : Prop where
   dfB : dfElifsB es = []
   labs : Src.labelsOfBranches (toSrcElifs es) = []
 
+structure CasesFacts (sw : String) (cs : Cases) : Prop where
+  ok : okCases cs = true
+  w : wCases cs = true
+  df : dfCases cs = []
+  labs : Src.labelsOfCases (toSrcCases sw cs) = []
+
 theorem f0_inner_facts (c : String) (cp : ESV.Param) (inner : Stmt) (hc : isCtx c = true) (h : f0Inner inner = true) :
     StmtFacts (.with_ c cp inner) := by
   cases inner with
@@ -101,8 +107,12 @@ theorem cg_stmt_facts (lv : Nat) : ∀ (s : Stmt), cgStmt lv s = true → StmtFa
   | .label _, h => by simp [cgStmt] at h
   | .jump _, h => by simp [cgStmt] at h
   | .call _, h => by simp [cgStmt] at h
-  | .brk, h => by simp [cgStmt] at h
-  | .switch .., h => by simp [cgStmt] at h
+  | .brk, _ => ⟨rfl, rfl, rfl, by simp [toSrcStmt, Src.labelsOf]⟩
+  | .switch hdr cs, h => by
+    simp only [cgStmt, Bool.and_eq_true] at h
+    have f1 := cg_cases_facts lv hdr.name cs h.2
+    obtain ⟨a, b⟩ := nameOK_split hdr.name h.1.1.1.1.2
+    exact ⟨by simp [okStmt, b, f1.ok], by simp [wStmt, a, f1.w], by simp [dfStmt, f1.df], by simp [toSrcStmt, Src.labelsOf, f1.labs]⟩
   | .macroCall .., h => by simp [cgStmt] at h
 theorem cg_stmts_facts (lv : Nat) : ∀ (ss : Stmts), cgStmts lv ss = true → StmtsFacts ss
   | .nil, _ => ⟨rfl, rfl, rfl, by simp [toSrcStmts, Src.labelsOfStmts]⟩
@@ -122,6 +132,20 @@ theorem cg_elifs_facts (lv : Nat) : ∀ (es : Elifs), cgElifs lv es = true → E
       by simp [toSrcElifs, Src.labelsOfBranches, f1.labs, f2.labs]⟩
     · simp only [dfElifsA, f1.df, f2.dfA]; cases neg <;> rfl
     · simp only [dfElifsB, f1.df, f2.dfB]; cases neg <;> rfl
+theorem cg_cases_facts (lv : Nat) (sw : String) : ∀ (cs : Cases), cgCases lv sw cs = true → CasesFacts sw cs
+  | .nil, _ => ⟨rfl, rfl, rfl, by simp [toSrcCases, Src.labelsOfCases]⟩
+  | .cons true n ps body r, h => by
+    simp only [cgCases, Bool.and_eq_true] at h
+    have f1 := cg_stmts_facts lv body h.1.2
+    have f2 := cg_cases_facts lv sw r h.2
+    refine ⟨by simp [okCases, f1.ok, f2.ok], by simp [wCases, f1.w, f2.w], ?_, by simp [toSrcCases, Src.labelsOfCases, f1.labs, f2.labs]⟩
+    simp only [dfCases, f1.df, f2.df]; split <;> rfl
+  | .cons false n ps body r, h => by
+    simp only [cgCases, Bool.false_or, Bool.and_eq_true] at h
+    have f1 := cg_stmts_facts lv body h.1.2
+    have f2 := cg_cases_facts lv sw r h.2
+    refine ⟨by simp [okCases, f1.ok, f2.ok], by simp [wCases, f1.w, f2.w, h.1.1.1.1], ?_, by simp [toSrcCases, Src.labelsOfCases, f1.labs, f2.labs]⟩
+    simp only [dfCases, f1.df, f2.df]; split <;> rfl
 end
 
 /-- programs of the fragment: no macros, routines numbered 0, 1, 2, … in source order, bodies in the fragment -/
